@@ -3,3 +3,6 @@ import Bt.Engine.State
 import Bt.Engine.Sec
 import Bt.Engine.Strat
 import Bt.Engine.Ops
+import Bt.Driver.Tok
+import Bt.Driver.Engine
+import Bt.Props.C01
